@@ -123,6 +123,11 @@ func genSignRoundtrip(h *H, modes []string) {
 			if thorough {
 				ks = []int{1, 2, 3}
 			}
+			if !thorough && !h.specOracles && mode == "att" {
+				// one Write of more than two blocks (the flush loop must run more than once)
+				h.tag("len:two-blocks-plus-one")
+				h.Run(signCase(mode, v, h.randSigKey(), [][]byte{h.rng.Bytes(2*mib + 1)}, h.rng.Bytes(16), true))
+			}
 			for _, k := range ks {
 				for _, d := range []int{-1, 0, 1} {
 					if mode == "det" && !(k == 1 && d == 0) {
@@ -132,7 +137,7 @@ func genSignRoundtrip(h *H, modes []string) {
 					h.tag("len:chunk-boundary")
 					h.Run(signCase(mode, v, h.randSigKey(), [][]byte{msg}, h.rng.Bytes(16), true))
 					// the same lengths streamed in several Write calls
-					pats := []int{k + d + 1, k + d + 3}
+					pats := []int{k + d + 1 + 2*int(v[0]-'1')}
 					if thorough {
 						pats = []int{0, 1, 2, 3, 4}
 					}
@@ -262,7 +267,11 @@ func genDetachedMutations(h *H, n int) {
 		b := h.makeSigned("det", sk, v, msg2)
 		at := h.makeSigned("att", sk, v, msg)
 		sig, m, mut := a.wire, msg, "none"
-		switch h.rng.Intn(13) {
+		switch h.rng.Intn(15) {
+		case 13, 14: // the honest signature under a header with the same fields but different bytes
+			if m2, ok := respellHeader(h.rng, a.wire); ok {
+				sig, mut = m2, "hdr-respell"
+			}
 		case 10: // the signature value re-encoded one byte longer (valid 64 bytes first)
 			oa, _ := splitObjects(a.wire)
 			sn, _, _ := mpParse(oa[1])
@@ -304,6 +313,9 @@ func genDetachedMutations(h *H, n int) {
 		h.tag("mut:" + mut)
 		cs := Case{Op: "verify_detached", A: map[string]string{"vd": "any", "ring": blist([][]byte{pk}), "msg": hx(m), "sig": hx(sig),
 			"truth": blist([][]byte{msg, msg2}), "mut": mut}}
+		if mut == "hdr-respell" {
+			cs.A["must_reject"], cs.A["why"] = "detached-accepts-respelled-header", "the header bytes differ from the header that was signed (same field values)"
+		}
 		if strings.HasPrefix(mut, "sig-value-") {
 			cs.A["must_reject"], cs.A["why"] = "detached-accepts-changed-signature-value", "the 64-byte signature value was changed ("+mut+")"
 		}
